@@ -471,8 +471,16 @@ pub fn c25(ctx: &mut Ctx) {
     cfg.include_osaka = true;
     let n2 = ctx.tier.pick(100_000, 2_000_000);
     ctx.run_cases("generated-programs", "world generator programs under the same step monitor (all specs incl. OSAKA)", || world_case(&cfg), n2, c25_world_case);
+    ctx.run_cases(
+        "eof-containers",
+        "OSAKA: generated valid EOF containers (RJUMPV with arbitrary 256-bit case operands, CALLF/RETF/JUMPF, DATA*, EXCHANGE, EXT*CALL, EOFCREATE / RETURNCONTRACT) run as called code and as create transactions under the same step monitor (instruction pointer inside the code section, stack <= 1024), debug assertions and overflow checks; a panic or a non-unwinding abort is a violation; non-trivial = an EXT*CALL or EOFCREATE was executed",
+        crate::eofcheck::built_strategy,
+        ctx.tier.pick(40_000, 800_000),
+        crate::eofcheck::c25_eof_case,
+    );
+    ctx.expect_labels("eof-containers", &["ran:RJUMPV", "ran:CALLF", "ran:JUMPF", "ran:DATACOPY"]);
     ctx.expect_labels("raw-bytes", &["PUSH", "RETURNDATACOPY", "JUMP", "nested-call", "halt"]);
-    ctx.assumptions.push("validated EOF containers are executed under the same monitor in C26".into());
+    ctx.assumptions.push("mutated / shipped EOF containers are additionally executed under the same monitor in C26".into());
 }
 
 // ------------------------------------------------------------------------------------------
